@@ -248,18 +248,26 @@ pub fn amf_value(cfg: AmfCfg) -> BoxedStrategy<V> {
     leaf.prop_recursive(cfg.max_depth, 24, 4, move |inner| {
         let pairs = proptest::collection::vec((amf_string(too_long, empty_names), inner.clone()), 0..4)
             .prop_map(dedup_pairs);
+        // wide containers: element / property counts around powers of two and beyond 65535
+        let wide_n = prop_oneof![pick(&[255u32, 256, 257, 1023, 1024, 1025, 4095, 4096, 4097, 65_535, 65_536, 70_000]), 258u32..3000];
+        let wide = prop_oneof![
+            2 => (prop_oneof![Just(V::Null), amf_number_bits().prop_map(V::Num), Just(V::Str(S::lit("ab"))), Just(V::Arr(vec![]))], wide_n.clone()).prop_map(|(v, n)| V::ArrRep(Box::new(v), n)),
+            1 => (pick(&["p", "key_", "é"]), wide_n).prop_map(|(p, n)| V::ObjRep(S::lit(p), n.min(5_000))),
+        ];
         if wire {
             prop_oneof![
-                3 => pairs.clone().prop_map(V::Obj),
-                2 => proptest::collection::vec(inner.clone(), 0..4).prop_map(V::Arr),
-                3 => (pairs, prop_oneof![Just(None), Just(Some(0u32)), Just(Some(u32::MAX)), any::<u32>().prop_map(Some)])
+                1 => wide,
+                18 => pairs.clone().prop_map(V::Obj),
+                12 => proptest::collection::vec(inner.clone(), 0..4).prop_map(V::Arr),
+                18 => (pairs, prop_oneof![Just(None), Just(Some(0u32)), Just(Some(u32::MAX)), any::<u32>().prop_map(Some)])
                     .prop_map(|(p, c)| { let n = p.len() as u32; V::Ecma(c.unwrap_or(n), p) }),
             ]
             .boxed()
         } else {
             prop_oneof![
-                3 => pairs.prop_map(V::Obj),
-                2 => proptest::collection::vec(inner.clone(), 0..4).prop_map(V::Arr),
+                1 => wide,
+                24 => pairs.prop_map(V::Obj),
+                16 => proptest::collection::vec(inner.clone(), 0..4).prop_map(V::Arr),
             ]
             .boxed()
         }
